@@ -633,6 +633,20 @@ def check_property(pid, tier, seed):
             decided = [f for f in relevant_fail if (f["fn"] or "") not in [x[0] for x in stubbed_rel]]
             if not decided:
                 raise Inconclusive("function(s) %s could not be processed by the verifier (%s); nothing else failed" % ([x[0] for x in stubbed_rel], stubbed_rel[0][1][:200]))
+        # ---- modular basis: a failed clause that carries only OTHER properties' labels still sits in the contract of a
+        # function this property's proofs call (the function lists this property) - the callers were verified against
+        # that contract, so this property's proof rests on a clause that does not hold: undecided, unless refuted
+        if not relevant_fail:
+            basis_fail = []
+            for r in results:
+                fprops = {f["id"]: f["props"] for f in r["meta"]["functions"]}
+                for f in r["failures"]:
+                    if pid not in f["props"] and pid in fprops.get(f["fn"] or "", []):
+                        basis_fail.append(f)
+            if basis_fail:
+                cov["failed_clauses_of_other_properties_in_functions_this_proof_relies_on"] = sorted(set("%s (%s)" % (f["label"], ",".join(f["props"])) for f in basis_fail))
+                raise Inconclusive("the proof of %s is modular: it relies on the contract of %s, and a clause of that contract failed (%s, labelled for %s); undecided for %s" %
+                                   (pid, sorted(set(f["fn"] for f in basis_fail))[:3], sorted(set(f["label"] for f in basis_fail))[:3], sorted(set(p for f in basis_fail for p in f["props"])), pid))
         failed_labels = set(f["label"] for f in relevant_fail)
         # body obligations: one per verus-checked function (exec fn or lemma) in the units
         body_obl = [(u, fnname) for (u, fnname, ok, _, _) in fn_rows]
